@@ -1,125 +1,190 @@
 package main
 
+import "strings"
+
 var commonTrusted = []string{
 	"Go type checker (go/types) and SSA construction (golang.org/x/tools/go/ssa v0.29.0)",
 	"go list / go/packages loading of /repo's working tree with the repository's own toolchain",
 	"Go standard library and the pinned third-party codecs (encoding/json, gopkg.in/yaml.v3 v3.0.1, go-toml/v2 v2.2.3) behave as documented",
+	"the checker's own path-summary engine (PS), validated on every thorough run by the seeded mutants and benign variants under /verif/selftest",
+}
+
+const levelBoiler = " Decided for every path of the code (per-node decision tables, frame conditions, orderings, ownership), not for sampled inputs; by structural induction over the recursive walkers this covers every tree that can drive those paths. It is a set of necessary structural conditions of the property, not a proof of the behaviour as a whole: clauses that depend on run-time values outside the analysed code are listed under not_decided."
+
+func mk(id, title, technique, decides, designRef string, notDecided []string, assumptions []string, rules ...func(*Prog, *Result)) {
+	register(PropSpec{
+		ID:          id,
+		Title:       title,
+		Technique:   "static analysis (no execution): " + technique,
+		LevelText:   decides + levelBoiler,
+		LevelNote:   "Trusts go/types, go/ssa and the analyser's path-summary engine; third-party codecs, the OS and the Go runtime are outside the analysis. " + strings.Join(assumptions, " "),
+		DesignRef:   designRef,
+		Explanation: decides,
+		NotDecided:  notDecided,
+		Trusted:     commonTrusted,
+		Assumptions: assumptions,
+		Rules:       rules,
+	})
 }
 
 func init() {
-	register(PropSpec{
-		ID:    "C01",
-		Title: "Layer merge follows the documented merge rules for every parent/child pair",
-		Rules: []func(*Prog, *Result){ruleC01Kind, ruleC01Map, ruleC01List, ruleC01Match, ruleDeepClone},
-	})
-	register(PropSpec{
-		ID:    "C15",
-		Title: "bkld round trip: base + bkld(base, target) evaluates to target",
-		Rules: []func(*Prog, *Result){ruleC15Table, ruleC15Seq, ruleC15Compose, ruleC15Dir, ruleMarkerVocabulary("C15.vocab", map[string][]string{"cmd/bkld": {"$delete", "$replace", "$match"}})},
-	})
-	register(PropSpec{
-		ID:    "C16",
-		Title: "bkli yields the maximal common base, and the migrate workflow is lossless",
-		Rules: []func(*Prog, *Result){ruleC16Table, ruleC16Fold, ruleMarkerVocabulary("C16.marker", map[string][]string{"cmd/bkli": {"$required"}}), ruleValidate("C16")},
-	})
-	register(PropSpec{
-		ID:    "C17",
-		Title: "bklr keeps exactly the $required skeleton and agrees with bkl on what is missing",
-		Rules: []func(*Prog, *Result){ruleC17Table, ruleMarkerVocabulary("C17.marker", map[string][]string{"cmd/bklr": {"$required"}}), ruleValidate("C17")},
-	})
-	register(PropSpec{
-		ID:    "C06",
-		Title: "Plain data passes through unchanged; $$ escapes any literal dollar",
-		Rules: []func(*Prog, *Result){ruleFinalize, ruleOutputGate("C06"), ruleValidate("C06"), ruleMarshalRoute, ruleC10Dispatch, ruleDollarCensus},
-	})
-	register(PropSpec{
-		ID:    "C07",
-		Title: "No unresolved $required or stray directive ever reaches the output",
-		Rules: []func(*Prog, *Result){ruleOutputGate("C07"), ruleValidate("C07"), ruleMarshalRoute, ruleC07Encode("C07.encode")},
-	})
-	register(PropSpec{
-		ID:    "C11",
-		Title: "$output selects exactly the marked subtrees and hides exactly the excluded ones",
-		Rules: []func(*Prog, *Result){ruleC11Select, ruleC11Hide, ruleOutputGate("C11")},
-	})
-	register(PropSpec{
-		ID:    "C02",
-		Title: "Stream layering targets the right documents and treats each independently",
-		Rules: []func(*Prog, *Result){ruleC02Select, ruleMergeSourcesPrivate("C02.indep"), ruleFieldWriterCensus("C02.order")},
-	})
-	register(PropSpec{
-		ID:    "C10",
-		Title: "$merge and $replace behave as if the referenced subtree were written inline",
-		Rules: []func(*Prog, *Result){ruleC10Phase, ruleC10Dispatch, ruleC10Lookup, ruleReferencesReadOnly, ruleC01Match},
-	})
-	register(PropSpec{
-		ID:    "C19",
-		Title: "Producing output is a pure observation of parser state",
-		Rules: []func(*Prog, *Result){ruleOutputPure, ruleCloneContract("C19.clone"), ruleDeepClone, ruleFieldWriterCensus("C19.docs")},
-	})
-	register(PropSpec{
-		ID:    "C04",
-		Title: "Results do not depend on which format (JSON/YAML/TOML) a layer is written in",
-		Rules: []func(*Prog, *Result){ruleC04Census, ruleC04Float, ruleC04Normalised("C04.normalised"), ruleC04Ext},
-	})
-	register(PropSpec{
-		ID:    "C12",
-		Title: "$repeat expands to exactly n indexed copies (cartesian product for named counts)",
-		Rules: []func(*Prog, *Result){ruleC12Loops, ruleC12Docs, ruleCloneContract("C12.copy")},
-	})
-	register(PropSpec{
-		ID:    "C13",
-		Title: "Interpolation and $env substitute exactly the referenced values",
-		Rules: []func(*Prog, *Result){ruleC13, ruleC13Vars},
-	})
-	register(PropSpec{
-		ID:    "C14",
-		Title: "$encode produces the named standard encodings and $decode inverts them",
-		Rules: []func(*Prog, *Result){ruleC14, ruleC14Decode, ruleC07Encode("C14.validate"), ruleC04Normalised("C14.inverse")},
-	})
-	register(PropSpec{
-		ID:    "C18",
-		Title: "With a root directory set, nothing outside it is ever read",
-		Rules: []func(*Prog, *Result){ruleC18Read, ruleC18Probe, ruleC18Root, ruleBklMainRoot},
-	})
-	register(PropSpec{
-		ID:    "C20",
-		Title: "bklb/kubectl-bkl rewrite only file arguments; all else passes through",
-		Rules: []func(*Prog, *Result){ruleC20},
-	})
-	register(PropSpec{
-		ID:    "C03",
-		Title: "Inheritance chain is resolved from filenames and $parent, base first",
-		Rules: []func(*Prog, *Result){ruleC03, ruleC03Strip, ruleBklMainInputs},
-	})
-	register(PropSpec{
-		ID:    "C05",
-		Title: "Output round-trips in every format: what bkl writes reads back unchanged",
-		Rules: []func(*Prog, *Result){ruleC05Table, ruleC05Sep, ruleC05All, ruleBklMainFormat},
-	})
-	register(PropSpec{
-		ID:    "C09",
-		Title: "Evaluation is deterministic",
-		Rules: []func(*Prog, *Result){ruleMapRanges, ruleSortedMap, ruleGlobals, ruleNondetSources},
-	})
-	register(PropSpec{
-		ID:          "C08",
-		Title:       "Every invocation terminates with complete output or a reported error",
-		Technique:   "static analysis: panic-site audit over SSA (unchecked type assertions, compiler-unproven bounds checks, explicit panics, division) and per-call-site classification of every call-graph cycle (depth-guarded / visited-guarded / structural on acyclic data), CLI exit discipline on the CFG",
-		LevelText:   "Structural necessary conditions, decided for every path of the code rather than for sampled inputs: no reachable panic site is unguarded and every recursion cycle is bounded by a depth guard, a visited set or strict structural descent. This is the part of 'never panics, never hangs' that is visible in the shape of the code; it is not a proof of termination of the third-party decoders or of bounded memory.",
-		LevelNote:   "Trusts go/types, go/ssa, the gc compiler's prove pass for bounds checks it eliminated, os.Exit not returning, library facts listed in the evidence (strings.Split returns >=1 element; a yaml DocumentNode has one child; os.Args is non-empty).",
-		DesignRef:   "DESIGN.md §5 C08, §4.2, §4.6, §4.8",
-		Explanation: "C08.panic audits every function reachable from the exported API and the mains for panic sites; C08.rec classifies every recursive call site of the closure-aware call graph. Nothing in /repo is executed.",
-		NotDecided: []string{
-			"memory exhaustion by breadth of reference expansion (the guard bounds depth only)",
-			"termination and crash freedom of encoding/json, yaml.v3, go-toml on arbitrary bytes",
-			"nil-pointer dereferences other than those excluded by the error-check discipline",
-		},
-		Trusted: commonTrusted,
-		Assumptions: []string{
-			"trees handed to the structural recursions are acyclic (decoders build trees; the ownership rules of C09/C10 forbid merging a tree into itself)",
-			"Document.Parents is acyclic unless the API is misused by merging a *Document into itself",
-		},
-		Rules: []func(*Prog, *Result){rulePanic, ruleRecursion, ruleCLIExit, ruleDroppedErrors},
-	})
+	mk("C01", "Layer merge follows the documented merge rules for every parent/child pair",
+		"path-effect summaries over SSA of the merge and match families checked against the documented decision table (kind dispatch, per-entry effects, frame condition, list order, every rejection with its sentinel)",
+		"C01 decides the per-node decision tables of merge and match: which case is taken for which kinds and guards, what it returns, what it writes (only keys the child mentions), parent-then-child list order, $replace/$delete/$match/$value handling and every documented rejection with the documented error.",
+		"DESIGN.md §5 C01, §4.3",
+		[]string{"fidelity of deepClone (a YAML round trip) on exotic strings", "type-sensitive == across formats (C04)", "chains of 3-4 layers beyond the induction (repeated application of the same entry)"},
+		[]string{"Trees are acyclic and layer sources are private copies (rules C02.indep / C08.acyclic)."},
+		ruleC01Kind, ruleC01Map, ruleC01List, ruleC01Match, ruleDeepClone)
+
+	mk("C02", "Stream layering targets the right documents and treats each independently",
+		"path-effect summaries of MergeDocument (target selection table), ownership analysis of every call into the merge family (sources must be private deep copies), census of the writers of Parser.docs / Document.Parents",
+		"C02 decides the target-selection table ($match: null appends; $match picks matching parent documents, else matching documents anywhere, else error; no $match merges into every document of the parent layers, else appends), that Parser.docs is append-only, that mergeDocs records parent identity, and that no merge source is shared between targets or with live data.",
+		"DESIGN.md §5 C02, §4.3, §4.4",
+		[]string{"semantics of match (C01)", "uniqueness of document IDs at run time"},
+		nil,
+		ruleC02Select, ruleMergeSourcesPrivate("C02.indep"), ruleFieldWriterCensus("C02.order"))
+
+	mk("C03", "Inheritance chain is resolved from filenames and $parent, base first",
+		"path-effect summaries of loadFileAndParents / parents / parentsFromDirective / parentsFromFilename / toAbsolutePaths / globFiles / parentsFromSymlink / MergeFile and of cmd/bkl.main",
+		"C03 decides parents-before-child order, directive > symlink > filename priority, the $parent directive table, that a missing layer is an error on every path, the dot-bounded wildcard filter, that $parent never reaches the merge (also with -P), and the CLI input loop.",
+		"DESIGN.md §5 C03",
+		[]string{"file-system behaviour of os.Stat / Glob / EvalSymlinks", "independence of the result from layer names", "the arithmetic of the filename rule beyond 'drops exactly one component'"},
+		nil,
+		ruleC03, ruleC03Strip, ruleBklMainInputs)
+
+	mk("C04", "Results do not depend on which format (JSON/YAML/TOML) a layer is written in",
+		"census of the dynamic types boxed into `any` by normalisation and evaluation, coverage of decoder-specific numeric types by normalize, must-pass-through (every decoded document goes to normalize and nowhere else), constant arguments of strconv.ParseFloat",
+		"C04 decides the necessary condition for format-independent comparisons: only one dynamic Go type per logical kind enters document data, every decoder result is normalised before use, no float narrowing, codec chosen by extension only.",
+		"DESIGN.md §5 C04, §4.7",
+		[]string{"that the three libraries agree on the logical content of equivalent documents (anchors, dotted keys, dates)", "TOML date/time types"},
+		[]string{"go-toml/v2 v2.2.3 decodes integers into int64 and floats into float64 (checked against go.mod)."},
+		ruleC04Census, ruleC04Float, ruleC04Normalised("C04.normalised"), ruleC04Ext)
+
+	mk("C05", "Output round-trips in every format: what bkl writes reads back unchanged",
+		"census of the format table (writer and reader reach the same codec package), separator literals matched against the reader's splitter pattern, path-effect summaries of every stream encoder/decoder (no document lost), format-choice flow in cmd/bkl.main and the Output* methods",
+		"C05 decides only the agreement between bkl's own writer and reader halves and the choice of format: same codec per table entry, aliases identical, every separator the writer emits is one the reader splits on, streams encode/decode every document in order, and -f > -o extension > first input's extension.",
+		"DESIGN.md §5 C05",
+		[]string{"decode(encode(x)) = x for look-alike strings, doubles, empty containers (third-party codecs)", "agreement with independent parsers"},
+		nil,
+		ruleC05Table, ruleC05Sep, ruleC05All, ruleBklMainFormat)
+
+	mk("C06", "Plain data passes through unchanged; $$ escapes any literal dollar",
+		"path-effect summaries of finalizeOutput, validate, outputDocument and the process1 family; census of every $-literal used to recognise directives; call-graph check that the unescape is applied exactly once",
+		"C06 decides the structural facts that make the escape sound: the $$ -> $ unescape is applied exactly once, to keys and values, after validation; every directive test is an exact comparison or prefix test on $+letter so no $$-prefixed string can satisfy it; the validator rejects only $required and $+lower-case; non-directive maps, lists and strings are rebuilt unchanged (only nulls dropped).",
+		"DESIGN.md §5 C06",
+		[]string{"exotic strings through deepClone's YAML round trip", "collisions of unescaped keys (made deterministic by the D6 repair, not prevented)", "process2's identity part is checked only through its directive dispatch (C13/C14)"},
+		nil,
+		ruleFinalize, ruleOutputGate("C06"), ruleValidate("C06"), ruleMarshalRoute, ruleC10Dispatch, ruleDollarCensus)
+
+	mk("C07", "No unresolved $required or stray directive ever reaches the output",
+		"must-pass-through on path-effect summaries of outputDocument (filter, then validate with checked error, then finalise), coverage of validate (every key, value and element), predicate of validateString, who may call a MarshalStream, $encode validates its input",
+		"C07 decides that every emitted value passed the hiding pass, then validation (error checked), then finalisation; that the validator visits every position and rejects exactly $required and $+lower-case strings; that nothing is encoded except validated output; that $encode validates its evaluated subtree first.",
+		"DESIGN.md §5 C07",
+		[]string{"whether an empty upper list 'actually overrides' a $required list entry"},
+		nil,
+		ruleOutputGate("C07"), ruleValidate("C07"), ruleMarshalRoute, ruleC07Encode("C07.encode"))
+
+	mk("C08", "Every invocation terminates with complete output or a reported error",
+		"panic-site audit over SSA (unchecked type assertions, compiler-unproven bounds checks matched to discharge patterns, explicit panics, division, nil-map writes), per-call-site classification of every cycle of a closure-aware call graph (depth-guarded / visited-guarded / structural on acyclic data), dropped-error audit, path summaries of the mains (failed step => stderr + non-zero exit, stdout written last)",
+		"C08 decides: no reachable panic site is unguarded; every recursion cycle is bounded by a depth guard, a visited set or strict structural descent on acyclic data; no error result is dropped; in every CLI a failed step ends in a diagnostic and a non-zero exit before anything is written to stdout, and stdout receives one complete buffer.",
+		"DESIGN.md §5 C08, §4.2, §4.6, §4.8",
+		[]string{"memory exhaustion by breadth of reference expansion (the guard bounds depth only)", "termination and crash freedom of encoding/json, yaml.v3, go-toml on arbitrary bytes", "nil-pointer dereferences other than those excluded by the error-check discipline"},
+		[]string{"Trees handed to the structural recursions are acyclic: decoders build trees and merge sources are private copies (C08.acyclic).", "Document.Parents is acyclic unless the API is misused by merging a *Document into itself."},
+		rulePanic, ruleRecursion, ruleMergeSourcesPrivate("C08.acyclic"), ruleCLIExit, ruleDroppedErrors)
+
+	mk("C09", "Evaluation is deterministic",
+		"order-sensitivity audit of every native map range (commutative writes / boolean fold / first-error shapes), contract of the sortedMap iterator, census of package-level state written outside init, census of nondeterminism sources reachable from evaluation, ownership rule against merging aliased trees",
+		"C09 decides that every range over a Go map is order-insensitive or goes through sortedMap, that sortedMap yields every entry once in key order, that no package-level state is written after initialisation (so concurrent evaluations cannot interfere), that no clock/random/goroutine/channel/%p source is reachable from evaluation, and that merge never receives aliased destination and source.",
+		"DESIGN.md §5 C09, §4.5, §4.7",
+		[]string{"determinism of the codecs, the Go runtime and the OS", "which of several errors is reported first (only success/failure is covered)"},
+		[]string{"One file per layer name (the property's own precondition) for findFile's map range."},
+		ruleMapRanges, ruleSortedMap, ruleGlobals, ruleNondetSources, ruleMergeSourcesPrivate("C09.alias"))
+
+	mk("C10", "$merge and $replace behave as if the referenced subtree were written inline",
+		"path-effect summaries of Document.Process (phase order), the process1 family (dispatch), get/getPath/getCross/getCrossDoc (lookup tables), matchMap (placeholder rule); ownership analysis: results of get never reach a mutating position",
+		"C10 decides phase order (references, then document-level $repeat, then the rest), the reference dispatch for maps, lists and strings ($merge layers the referenced value onto the local content as source, $replace discards local keys), the lookup tables incl. dangling and ambiguous references being errors, and that the referenced subtree is never written.",
+		"DESIGN.md §5 C10",
+		[]string{"keys containing dots", "interaction of references with $output: false templates beyond the phase order"},
+		nil,
+		ruleC10Phase, ruleC10Dispatch, ruleC10Lookup, ruleReferencesReadOnly, ruleC01Match)
+
+	mk("C11", "$output selects exactly the marked subtrees and hides exactly the excluded ones",
+		"path-effect summaries of findOutputs, filterOutput and outputDocument against the selection / hiding tables",
+		"C11 decides the selection table (marked maps first, then their children's selections in sorted key order; marked lists after their children's), marker removal, the root fallback when nothing is selected, the hiding table ($output: false yields nil, nil children dropped) and that hiding precedes validation.",
+		"DESIGN.md §5 C11",
+		[]string{"interaction with references copied out of hidden trees"},
+		nil,
+		ruleC11Select, ruleC11Hide, ruleOutputGate("C11"))
+
+	mk("C12", "$repeat expands to exactly n indexed copies (cartesian product for named counts)",
+		"induction-variable analysis of the three counted loops (0 <= i < n, step 1, i bound on a per-iteration clone of the context), lockstep analysis of the documents/contexts slices, path-effect summaries of repeatDoc*, process2RepeatObj*",
+		"C12 decides that each of the three expansion loops runs i = 0..n-1 with n the count, binds i itself under the right variable on a context cloned inside the iteration, keeps documents and contexts in lockstep, appends copies in order, expands named counts in sorted name order (existing-major), removes the $repeat key, and rejects non-integer counts.",
+		"DESIGN.md §5 C12",
+		[]string{"equality with the hand-expanded document (needs C13 on values)"},
+		nil,
+		ruleC12Loops, ruleC12Docs, ruleCloneContract("C12.copy"))
+
+	mk("C13", "Interpolation and $env substitute exactly the referenced values",
+		"path-effect summaries of process2String, the interpolation callback (captured error cell), getWithVar, GetVar, envVars; census of the interpolation pattern literal",
+		"C13 decides the interpolation trigger and pattern, that a failed lookup or nested evaluation sets the captured error which is returned on every path (never an empty substitution), the document-then-variable fallback, whole-string $env:/$repeat substitution, and that environment values are boxed as strings.",
+		"DESIGN.md §5 C13",
+		[]string{"%v formatting of non-string values", "literal } and : inside templates"},
+		nil,
+		ruleC13, ruleC13Vars)
+
+	mk("C14", "$encode produces the named standard encodings and $decode inverts them",
+		"path-effect summaries of process2EncodeString per transform branch (callee and operand of the standard-library implementation), sibling cross-check of argument-count guards, left-to-right fold of process2EncodeAny, $decode type table and must-pass-through normalize",
+		"C14 decides, per transform, which standard-library implementation is applied to which operand (base64.StdEncoding, crypto/sha256 + hex, strings.Join, prefix order, flags = [tolist:=, prefix:--], format encoders via the shared codec table), sorted traversal for tolist/values, that every transform checks its argument count, left-to-right stacking, the $decode type/arity errors and that $decode shares the codec table and normalises.",
+		"DESIGN.md §5 C14",
+		[]string{"exact bytes produced by the format encoders", "tolist value formatting (%v)"},
+		nil,
+		ruleC14, ruleC14Decode, ruleC07Encode("C14.validate"), ruleC04Normalised("C14.inverse"))
+
+	mk("C15", "bkld round trip: base + bkld(base, target) evaluates to target",
+		"path-effect summaries of diff/diffDoc against the diff table; composition check diff-emits-wholesale x merge-accepts over kind pairs; nil-diff-implies-equal-sequence check; vocabulary agreement of emitted directives with the evaluator",
+		"C15 decides the diff decision table, that every directive bkld emits is one merge recognises, that main diffs (target, base) and adds the document-level $match: {}, that wherever diff emits the target wholesale for a kind change merge accepts it, and that an empty list diff implies equal sequences.",
+		"DESIGN.md §5 C15",
+		[]string{"over-deletion by partial $delete patterns", "multiset/ordering semantics of list diffs beyond the nil case", "the round trip in general"},
+		nil,
+		ruleC15Table, ruleC15Seq, ruleC15Compose, ruleC15Dir, ruleMarkerVocabulary("C15.vocab", map[string][]string{"cmd/bkld": {"$delete", "$replace", "$match"}}))
+
+	mk("C16", "bkli yields the maximal common base, and the migrate workflow is lossless",
+		"path-effect summaries of intersect against the intersection table, per-element accumulation (loop-exit analysis), left fold in main, marker literal agreement with the validator",
+		"C16 decides the intersection table (nil, equal/different scalars, kind mismatch, map keys present in both, list membership), that a common list entry is accumulated once, that main folds the inputs left to right, and that the $required marker it emits is the one the evaluator rejects.",
+		"DESIGN.md §5 C16",
+		[]string{"maximality", "[] ∩ []", "the bkli + bkld + bkl round trip"},
+		nil,
+		ruleC16Table, ruleC16Fold, ruleMarkerVocabulary("C16.marker", map[string][]string{"cmd/bkli": {"$required"}}), ruleValidate("C16"))
+
+	mk("C17", "bklr keeps exactly the $required skeleton and agrees with bkl on what is missing",
+		"path-effect summaries of required against the skeleton table; marker literal agreement between bklr and the evaluator's validator",
+		"C17 decides the skeleton table ($required kept, other scalars dropped, containers keep exactly the children with a non-empty skeleton, empty containers become nil) and that the marker bklr keeps is the one validateString reports as ErrRequiredField.",
+		"DESIGN.md §5 C17",
+		[]string{"nothing further: idempotence follows from the table"},
+		nil,
+		ruleC17Table, ruleMarkerVocabulary("C17.marker", map[string][]string{"cmd/bklr": {"$required"}}), ruleValidate("C17"))
+
+	mk("C18", "With a root directory set, nothing outside it is ever read",
+		"who-may-call census of file-content APIs (only (*os.Root).Open on the parser's root and stdin), frozen list of metadata probes, writer census and path summary of SetRoot (roots only narrow), data-flow of the path handed to root.Open, dominance of SetRoot over loading in cmd/bkl.main",
+		"C18 decides that layer content is read only through (*os.Root).Open on Parser.root (or stdin), with the root-relative path; that the metadata probes are exactly os.Stat in findFile, filepath.Glob in globFiles and EvalSymlinks in parentsFromSymlink; that only SetRoot changes the root and only by opening a sub-root through the current one; and that -r is applied and checked before any input is resolved.",
+		"DESIGN.md §5 C18",
+		[]string{"os.Root's own guarantees", "independence from the existence of outside files (probes bypass the root by design; frozen, not proven harmless)"},
+		nil,
+		ruleC18Read, ruleC18Probe, ruleC18Root, ruleBklMainRoot)
+
+	mk("C19", "Producing output is a pure observation of parser state",
+		"interprocedural mutation summaries (may-write analysis over the call graph): no write reachable from an output method targets anything derived from the parser; evaluation is applied to (*Document).Clone results only; Clone deep-copies",
+		"C19 decides that nothing reachable from Output/OutputDocuments/OutputToWriter/OutputToFile/Documents writes a parser document or a tree it owns: evaluation (which rewrites in place) only ever receives clones, and Clone deep-copies the data.",
+		"DESIGN.md §5 C19, §4.4",
+		[]string{"byte equality of repeated calls (follows from C19.pure + C09, not checked separately)"},
+		nil,
+		ruleOutputPure, ruleCloneContract("C19.clone"), ruleDeepClone, ruleFieldWriterCensus("C19.docs"))
+
+	mk("C20", "bklb/kubectl-bkl rewrite only file arguments; all else passes through",
+		"path-effect summaries of wrapper.WrapOrDie and cmd/bklb.main: argv construction, the only store into the argument copy, error paths ending before exec",
+		"C20 decides that argv is [cmd] + a copy of os.Args[1:] in order with only file arguments replaced in place by the temp file's name, that a non-bkl argument is skipped without effect, that every evaluation error is fatal before exec, that format and temp-name flow from FileMatch(arg), and how the program name is derived.",
+		"DESIGN.md §5 C20",
+		[]string{"what the exec'd program observes (OS)"},
+		nil,
+		ruleC20)
 }
